@@ -1,6 +1,7 @@
 package scen
 
 import (
+	"bytes"
 	"fmt"
 	"hash"
 	"time"
@@ -79,10 +80,15 @@ func G1m() *data.ContentHash_Graph {
 	return g
 }
 
+// R20 is a raw content hash with a 20-byte digest.
+func R20() *data.ContentHash {
+	return &data.ContentHash{Raw: &data.ContentHash_Raw{Hash: bytes.Repeat([]byte{0x20}, 20), DigestAlgorithm: 1, FileExtension: "bin"}}
+}
+
 // DataUniverse are the content hashes of the data scenario plus two that no event ever names.
 func DataUniverse() []*data.ContentHash {
 	return []*data.ContentHash{RawHash(1), RawHash(2), RawHash(3), {Graph: GraphHash(1)}, {Graph: GraphHash(2)}, {Graph: GraphHash(3)},
-		{Graph: G1m()}, RawHash(4), {Graph: GraphHash(4)}}
+		{Graph: G1m()}, R20(), RawHash(4), {Graph: GraphHash(4)}}
 }
 
 // DataSpec is the C16 scenario: one seed per injected hasher.
@@ -130,6 +136,8 @@ func DataSpec(thorough bool) Spec {
 		// two content hashes with the same digest bytes in one message, and one of them alone
 		fix(Msg("Attest(B,G1+G1m)", &data.MsgAttest{Attestor: B.String(), ContentHashes: []*data.ContentHash_Graph{hashes[3].Graph, G1m()}})),
 		fix(Msg("Anchor(C,G1m)", &data.MsgAnchor{Sender: C.String(), ContentHash: &data.ContentHash{Graph: G1m()}})),
+		// a 20-byte digest under digest algorithm 1 (message validation admits 20..64 bytes for every algorithm)
+		fix(Msg("Anchor(B,R20)", &data.MsgAnchor{Sender: B.String(), ContentHash: R20()})),
 		fix(Next(time.Second)), fix(Next(24*time.Hour)),
 	)
 	exp := map[string]bool{}
